@@ -1,5 +1,13 @@
 """C18 -- the checksum is the FIT CRC-16 of the bytes, however they are written."""
 from .common import *
+from .manifest_data import NOTE_COMMON
+
+CLAIM = {
+  "technique": "Coq proof (table sweep 65536x16 by vm_compute lifted with forallb_forall + induction over the byte string) on the translated table/compute; differential scripts vs crc16 object",
+  "text": "Full proof: for every state and byte the translated nibble-table update equals 8 steps of the bit-serial CRC-16/ARC; by induction the checksum of every "
+          "byte string equals the reference, is independent of the split into writes, and any script of Write/Sum16/Sum/Reset refines the abstract object. "
+          "table and compute are regenerated from crc16.go on every run; Write/Sum/Reset glue is tied by differential scripts evaluated inside Coq.",
+  "note": NOTE_COMMON + " Go's range loop over the slice in Write is modelled as fold_left."}
 
 
 def run(ctx):
